@@ -13,8 +13,8 @@ Target = Union[FuncInfo, ClassInfo, str]
 
 
 class Program:
-    def __init__(self, root: Optional[str] = None):
-        self.ix = Index(root)
+    def __init__(self, root: Optional[str] = None, overrides: Optional[Dict[str, str]] = None):
+        self.ix = Index(root, overrides)
         self._cfgs: Dict[str, CFG] = {}
         self.stats = {"calls": 0, "resolved": 0, "by_name": 0, "external": 0, "unresolved": 0}
 
